@@ -23,4 +23,29 @@ def holds (labels : SMap) (keys values : List String) : Bool :=
   subMultiset got expected && subMultiset expected got &&
   keys.all (fun k => k.toList.all legal)
 
+/-- **Gauges of an ExtendedDaemonSet.** `g family` is the value exported for the object in that family;
+every status series reports the status field of the same name, the canary series the canary facts
+(activated ⇔ `status.canary` set; paused ⇔ canary set and the Canary-Paused condition *True*; number of
+canary nodes), the two rollout series the state string. -/
+def edsGauges (st : EDSStatus) (g : String → Option Int) : Bool :=
+  g "eds_status_desired" == some st.desired && g "eds_status_current" == some st.current &&
+  g "eds_status_ready" == some st.ready && g "eds_status_available" == some st.available &&
+  g "eds_status_uptodate" == some st.upToDate && g "eds_status_ignored_unresponsive_nodes" == some st.ignored &&
+  g "eds_status_canary_activated" == some (if st.canary.isSome then 1 else 0) &&
+  g "eds_status_canary_node_number" == some (match st.canary with | some c => c.nodes.length | none => 0) &&
+  g "eds_status_canary_paused" == some (if st.canary.isSome && isCondTrue st.conds "Canary-Paused" then 1 else 0) &&
+  g "eds_status_rolling_update_paused" == some (if st.state == "RollingUpdate Paused" then 1 else 0) &&
+  g "eds_status_rollout_frozen" == some (if st.state == "Rollout frozen" then 1 else 0)
+
+/-- **Gauges of a replica set.** -/
+def ersGauges (et : ERSStatus) (g : String → Option Int) : Bool :=
+  g "ers_status_desired" == some et.desired && g "ers_status_current" == some et.current &&
+  g "ers_status_ready" == some et.ready && g "ers_status_available" == some et.available &&
+  g "ers_status_ignored_unresponsive_nodes" == some et.ignored &&
+  g "ers_status_canary_failed" == some (if isCondTrue et.conds "Canary-Failed" then 1 else 0)
+
+/-- value of the first sample of a family in a list of model samples. -/
+def gaugeOf (l : List Sample) (family : String) : Option Int :=
+  (l.find? (fun s => s.family == family)).map (·.value)
+
 end Eds.Spec.C20
